@@ -19,13 +19,16 @@ CHECKS = {
  "C12": dict(technique="TLA+ spec Kernels (defining equations of triangular solve / Schur complement + transfer maps / direct-sum decomposition, same answer across thread pools) + GroupCols (union-find under a mutex, check and union as separate critical sections, every interleaving on every intersection graph); recorded calls on pools of 1/2/16 threads validated by Trace_Kernels",
              text="TLC explores all interleavings of the check-then-union tasks of the column grouping on every graph with 4 (thorough: 5) columns (safety, completeness, termination), checks the kernel contracts against textbook reference formulas on complete small domains, and validates every recorded call of the real kernels (pools of 1, 2, 16 threads, repeated calls) against the defining equations.",
              note="Trusted: TLC, Matrices.tla. Thread schedules of the real code are sampled (three pool sizes), the interleaving quantifier is discharged on the GroupCols model.", design="§3 C12"),
+ "C11": dict(technique="TLA+ spec Pivot (shared pivot table, per-task snapshot prefix, one action per critical section: Start / Search / Lock=Retry|Commit); TLC explores every interleaving on every 3x3 (thorough 3x4) pattern with Acyclic, distinctness, termination; TLC behaviours replayed as forced schedules into the real threads through cfg(yui_verif) gate hooks; all recorded events validated by Trace_Pivot",
+             text="Exhaustive interleaving exploration of the design on small matrices, plus conformance of the real threads in both directions: schedules generated by TLC are forced on the real worker threads at the hook points, and every run (forced, randomly gated, or free on 1..16 threads) is validated event by event against the spec with the acyclicity invariant evaluated after every commit and the result contract on the returned list.",
+             note="Trusted: TLC; hooks emit Retry/Commit under the write lock; the controller realises schedules only as far as rayon makes the tasks available (non-applicable steps are counted and skipped).", design="§3 C11"),
 }
 PENDING = "not yet bound to the specification in this round (see DESIGN.md section 3 for the planned spec and binding)"
 m = {
  "version": 1,
  "setup_cmd": "cd /verif/harness && cargo build --release --offline",
  "hooks": {"guard": "yui_verif", "enable": "RUSTFLAGS=--cfg yui_verif (set in /verif/harness/.cargo/config.toml; the harness builds /repo's crates as path dependencies)",
-           "baseline_off_cmd": "cd /repo && cargo test --workspace --no-fail-fast --offline", "source_commits": [], "add_only": True},
+           "baseline_off_cmd": "cd /repo && cargo test --workspace --no-fail-fast --offline", "source_commits": ["c6e096b"], "add_only": True},
  "engines": [
    {"name": "tlc", "path": "bin/tlcw", "serves_properties": sorted(CHECKS), "kind_free_text": "TLC 1.8.0 explicit-state model checker over spec/ (MC_* exhaustive configs, Gen_* behaviour generators, Trace_* trace validators)"},
    {"name": "yv", "path": "harness", "serves_properties": sorted(CHECKS), "kind_free_text": "Rust conformance harness: replays TLC-generated behaviours into the real crates and records ndjson traces from them"},
